@@ -38,6 +38,7 @@ pub struct World {
     pub scratch_n: usize,
     pub bk: crate::backupeng::Bk,
     pub wall: bool,
+    pub fault_armed: bool,
 }
 
 fn is_wal(p: &str) -> bool {
@@ -212,7 +213,11 @@ impl World {
         let mut acts: Vec<String> = vec![];
         let mut crashes: Vec<String> = vec![];
         let mut pending_magic: Option<String> = None;
-        let do_crash = enumerate && self.cfg.crash;
+        let do_crash = enumerate && self.cfg.crash && !self.fault_armed;
+        // (file, offset) of every walAppend act of this op, for cancelling rolled-back appends
+        let mut append_at: Vec<Option<(String, u64)>> = vec![];
+        // bytes appended to a segment that do not yet form a whole frame: (file, offset of the first byte, bytes)
+        let mut pend: Option<(String, u64, Vec<u8>)> = None;
         if do_crash {
             let sh = self.shadow.clone();
             let o = self.recover_at(&sh);
@@ -238,6 +243,11 @@ impl World {
                     }
                 }
             }
+            let pre_size = if let Effect::Truncate { path, .. } = e {
+                self.shadow.get(path).map(|d| d.len() as u64)
+            } else {
+                None
+            };
             apply_effect(&mut self.shadow, e);
             if self.wall {
                 // the kernel stamps mtimes with the real clock: restamp with the virtual one
@@ -273,9 +283,29 @@ impl World {
                         if *offset == 0 && data.len() == 4 {
                             // magic header; walCreate completes at the following fdatasync
                         } else {
-                            let n = self.canon_opt(path);
-                            let desc = if data.len() >= 8 {
-                                match bincode::deserialize::<WalEntry>(&data[4..data.len() - 4]) {
+                            // frames may arrive in pieces (short writes): assemble contiguous bytes
+                            let contiguous = matches!(&pend, Some((p, start, buf)) if p == path && *start + buf.len() as u64 == *offset);
+                            if !contiguous {
+                                if let Some((p, start, buf)) = pend.take() {
+                                    if !buf.is_empty() {
+                                        acts.push(format!("walAppend:{}:partial", self.canon_opt(&p)));
+                                        append_at.resize(acts.len() - 1, None);
+                                        append_at.push(Some((p, start)));
+                                    }
+                                }
+                                pend = Some((path.clone(), *offset, vec![]));
+                            }
+                            let (p, start, buf) = pend.as_mut().unwrap();
+                            buf.extend_from_slice(data);
+                            loop {
+                                if buf.len() < 4 {
+                                    break;
+                                }
+                                let n = u32::from_le_bytes([buf[0], buf[1], buf[2], buf[3]]) as usize;
+                                if n == 0 || n > 100 * 1024 * 1024 || buf.len() < 8 + n {
+                                    break;
+                                }
+                                let desc = match bincode::deserialize::<WalEntry>(&buf[4..4 + n]) {
                                     Ok(en) => format!(
                                         "{}{}{}",
                                         en.seq_no,
@@ -287,11 +317,14 @@ impl World {
                                         en.doc_id
                                     ),
                                     Err(_) => "partial".to_string(),
-                                }
-                            } else {
-                                "partial".to_string()
-                            };
-                            acts.push(format!("walAppend:{}:{}", n, desc));
+                                };
+                                let n_canon = self.names.get(p.as_str()).map(|x| x.to_string()).unwrap_or_else(|| format!("?{}", p));
+                                acts.push(format!("walAppend:{}:{}", n_canon, desc));
+                                append_at.resize(acts.len() - 1, None);
+                                append_at.push(Some((p.clone(), *start)));
+                                buf.drain(..8 + n);
+                                *start += (8 + n) as u64;
+                            }
                         }
                     }
                 }
@@ -327,7 +360,27 @@ impl World {
                     }
                 }
                 Effect::Truncate { path, len } => {
-                    acts.push(format!("truncate:{}:{}", self.canon_opt(path), len));
+                    // a rollback that cuts the file back to where this op's append(s) started cancels them
+                    append_at.resize(acts.len(), None);
+                    let mut cancelled = false;
+                    if matches!(&pend, Some((p, start, _)) if p == path && *start >= *len) {
+                        pend = None;
+                        cancelled = true;
+                    }
+                    let mut i = 0;
+                    while i < acts.len() {
+                        let hit = matches!(&append_at[i], Some((p, off)) if p == path && *off >= *len);
+                        if hit {
+                            acts.remove(i);
+                            append_at.remove(i);
+                            cancelled = true;
+                        } else {
+                            i += 1;
+                        }
+                    }
+                    if !cancelled && pre_size != Some(*len) {
+                        acts.push(format!("truncate:{}:{}", self.canon_opt(path), len));
+                    }
                 }
                 Effect::FsyncDir => {}
             }
@@ -335,6 +388,11 @@ impl World {
                 let sh = self.shadow.clone();
                 let o = self.recover_at(&sh);
                 crashes.push(format!("{}:{}", acts.len(), o));
+            }
+        }
+        if let Some((p, _, buf)) = pend.take() {
+            if !buf.is_empty() {
+                acts.push(format!("walAppend:{}:partial", self.canon_opt(&p)));
             }
         }
         (acts, crashes)
@@ -502,6 +560,7 @@ pub fn step(w: &mut Option<World>, line: &str, scratch_root: &Path, case_no: &mu
             scratch_n: 0,
             bk: Default::default(),
             wall: false,
+            fault_armed: false,
         };
         world.wall = wall.is_some();
         let out = match b {
@@ -517,6 +576,32 @@ pub fn step(w: &mut Option<World>, line: &str, scratch_root: &Path, case_no: &mu
     let Some(w) = w.as_mut() else {
         return (t, "bad-op:no-cfg".into());
     };
+    let bad = || (line.trim().to_string(), "bad-op".to_string());
+    if op == "fault" {
+        let (Some(call), Some(errno)) = (field(&fs, "call"), nat(&fs, "errno")) else { return bad() };
+        shim::arm(shim::Fault {
+            call: call.to_string(),
+            nth: nat(&fs, "nth").unwrap_or(0) as usize,
+            errno: errno as i32,
+            short: nat(&fs, "short").map(|x| x as usize),
+            path_contains: field(&fs, "path").map(|x| x.to_string()),
+        });
+        w.fault_armed = true;
+        return (t, "armed".into());
+    }
+    if w.fault_armed && matches!(op.as_str(), "insert" | "delete" | "batch_delete" | "update" | "snapshot" | "restart") {
+        let (ann, res) = step_op(w, &op, &fs, &t, line);
+        let fired = shim::disarm();
+        w.fault_armed = false;
+        return (format!("{} io={}", ann, fired.len()), res);
+    }
+    step_op(w, &op, &fs, &t, line)
+}
+
+fn step_op(w: &mut World, op: &str, fs: &Fields, t: &str, line: &str) -> (String, String) {
+    let t = t.to_string();
+    let op = op.to_string();
+    let fs = fs.clone();
     let bad = || (line.trim().to_string(), "bad-op".to_string());
     if op == "tick" || op.starts_with("bk_") {
         return crate::backupeng::step(w, op.as_str(), &fs, &t).unwrap_or_else(bad);
@@ -547,6 +632,8 @@ pub fn step(w: &mut Option<World>, line: &str, scratch_root: &Path, case_no: &mu
                         ("1", "-".to_string(), "full")
                     } else if msg.contains("HNSW insert failed after WAL append") {
                         ("index", "-".to_string(), "rejected")
+                    } else if msg.contains("WAL") || msg.contains("ircuit breaker") {
+                        ("io", "-".to_string(), "rejected")
                     } else {
                         ("0", "-".to_string(), "rejected")
                     }
@@ -572,7 +659,8 @@ pub fn step(w: &mut Option<World>, line: &str, scratch_root: &Path, case_no: &mu
                 Ok(b) => show_bool(b).to_string(),
                 Err(_) => "err".into(),
             };
-            (format!("delete id={} flen={}", id, flen), w.finish(out))
+            let fail = if out == "err" { " fail=1" } else { "" };
+            (format!("delete id={} flen={}{}", id, flen, fail), w.finish(out))
         }
         "batch_delete" => {
             let Some(ids) = nat_list(&fs, "ids") else { return bad() };
@@ -581,8 +669,9 @@ pub fn step(w: &mut Option<World>, line: &str, scratch_root: &Path, case_no: &mu
                 Ok(n) => n.to_string(),
                 Err(_) => "err".into(),
             };
+            let fail = if out == "err" { " fail=1" } else { "" };
             (
-                format!("batch_delete ids={} flen={}", show_nat_list(&ids), flen),
+                format!("batch_delete ids={} flen={}{}", show_nat_list(&ids), flen, fail),
                 w.finish(out),
             )
         }
@@ -604,14 +693,16 @@ pub fn step(w: &mut Option<World>, line: &str, scratch_root: &Path, case_no: &mu
                 Ok(x) => show_bool(x).to_string(),
                 Err(_) => "err".into(),
             };
+            let fail = if out == "err" { " fail=1" } else { "" };
             (
                 format!(
-                    "update id={} m={} merge={} flen={} nums={}",
+                    "update id={} m={} merge={} flen={} nums={}{}",
                     id,
                     show_meta(&m),
                     mg as u8,
                     flen,
-                    nums
+                    nums,
+                    fail
                 ),
                 w.finish(out),
             )
